@@ -599,6 +599,9 @@ def explicit_cases():
         ("vtt", "\ufeffWEBVTT\n\n" + vtt_body, (False, 0), exp_vtt, 113, None),
         ("vtt", "WEBVTT - a title\n\n" + vtt_body, (True, 0), exp_vtt, 113, None),
         ("vtt", "WEBVTT\nKind: captions\nLanguage: en\n\nNOTE first\n\n" + vtt_body, (True, 0), exp_vtt, 113, None),
+        # blocks after the last cue and a STYLE block in the header (C01_vtt_doc_exact_framed)
+        ("vtt", "WEBVTT\n\nSTYLE\n::cue { color: red }\n\n" + vtt_body + "\nNOTE the end\nof the file\n", (True, 0), exp_vtt, 113, None),
+        ("vtt", "WEBVTT\n\n" + vtt_body + "\n\nstray text after the last cue", (False, 0), exp_vtt, 113, None),
         ("vtt", "WEBVTT\r\n\r\n" + vtt_body.replace("\n", "\r\n"), (False, 500), [[1500000, 3000000], [3603500000, 3604500000]], 113, None),
         # SRT: CRLF, a trailing blank after the stamp, no blank line at the end
         ("srt", "1\r\n00:00:01,000 --> 00:00:02,500 \r\nx\r\n\r\n2\r\n01:00:03,000 --> 01:00:04,000\r\ny", None, exp_vtt, 109, None),
